@@ -112,8 +112,10 @@ def run_one(mod, run_seed, replay=None, lenient=False, keep_trace=False, case=No
 
 
 # ---------------------------------------------------------------- fan-out
-def _child(mod_name, pid, seeds, outpath, deadline, wall_cap):
+def _child(mod_name, pid, seeds, outpath, deadline, wall_cap, no_opcodes=False):
     """Runs in a forked child: execute the seeds, write aggregate JSON."""
+    if no_opcodes:
+        os.environ["VERIF_NO_OPCODES"] = "1"
     faulthandler.enable()
     faulthandler.dump_traceback_later(wall_cap, exit=True)
     mod = load_check(pid)
@@ -125,6 +127,9 @@ def _child(mod_name, pid, seeds, outpath, deadline, wall_cap):
             r = run_one(mod, s)
             if r["status"] == "violation":
                 r["prelude"] = list(seeds[:i])      # what this worker process ran before (see report())
+                if no_opcodes:
+                    r.setdefault("details", None)
+                    r["env"] = {"VERIF_NO_OPCODES": "1"}
             fold(agg, r)
     except BaseException as e:  # pragma: no cover
         agg["errors"].append({"seed": -1, "message": "child crashed: %r" % (e,),
@@ -165,7 +170,7 @@ def fold(agg, r):
     if r["status"] == "violation":
         agg["violations"].append({k: r.get(k) for k in
                                   ("seed", "fingerprint", "message", "choices", "nchoices",
-                                   "digest", "details", "prelude")})
+                                   "digest", "details", "prelude", "env")})
     elif r["status"] in ("error", "diverged"):
         agg["errors"].append({"seed": r["seed"], "message": r.get("message"),
                               "traceback": r.get("traceback")})
@@ -203,6 +208,7 @@ def fan_out(pid, seeds, jobs, wall_budget, chunk=None, per_chunk_cap=None):
         cap = per_chunk_cap or max(120, int(wall_budget) + 60)
         live = {}
         ci = 0
+        retried = set()
         sys.stdout.flush()
         while ci < len(chunks) or live:
             while ci < len(chunks) and len(live) < jobs and time.time() < deadline:
@@ -210,7 +216,7 @@ def fan_out(pid, seeds, jobs, wall_budget, chunk=None, per_chunk_cap=None):
                 p = os.fork()
                 if p == 0:
                     try:
-                        _child(None, pid, chunks[ci], out, deadline, cap)
+                        _child(None, pid, chunks[ci], out, deadline, cap, no_opcodes=ci in retried)
                     finally:
                         os._exit(3)
                 live[p] = (ci, out, time.time())
@@ -238,6 +244,13 @@ def fan_out(pid, seeds, jobs, wall_budget, chunk=None, per_chunk_cap=None):
                 with open(out) as f:
                     merge(agg, json.load(f))
                 os.unlink(out)
+            elif os.WIFSIGNALED(st) and os.WTERMSIG(st) == signal.SIGSEGV and c not in retried and time.time() < deadline:
+                # the interpreter crashed in this worker (seen with bytecode-level tracing): run the same seeds once
+                # more with that feature off rather than losing them; counted in the evidence
+                retried.add(len(chunks))
+                chunks.append(chunks[c])
+                agg["probes"]["worker_crashed_rerun_without_opcode_tracing"] = \
+                    agg["probes"].get("worker_crashed_rerun_without_opcode_tracing", 0) + 1
             else:
                 agg["harness_errors"].append(
                     "chunk %d (seeds %s..) died with status %s and no result"
@@ -344,7 +357,7 @@ def shrink_case(mod, seed, sparse, fp, case, budget_runs=120, budget_s=60.0):
 
 
 def write_replay(pid, seed, sparse, fp, message, digest, trace_tail, details=None,
-                 directory=None, name=None, case=None, prelude=None):
+                 directory=None, name=None, case=None, prelude=None, env=None):
     d = directory or os.path.join(OUT, "replays")
     os.makedirs(d, exist_ok=True)
     path = os.path.join(d, name or "%s-%d-%s.json" % (pid, seed, fp_str(fp)))
@@ -356,6 +369,8 @@ def write_replay(pid, seed, sparse, fp, message, digest, trace_tail, details=Non
             d["case"] = case
         if prelude:
             d["prelude_seeds"] = list(prelude)
+        if env:
+            d["env"] = dict(env)
         json.dump(d, f, indent=1)
     return path
 
@@ -364,6 +379,8 @@ def replay_file(path, strict=True):
     with open(path) as f:
         rp = json.load(f)
     mod = load_check(rp["property"])
+    for k, v in (rp.get("env") or {}).items():
+        os.environ[k] = v
     for ps in rp.get("prelude_seeds") or ():
         # runs the same worker process executed before the failing one: the violation depends on
         # process-wide state they left behind in the code under test
@@ -429,7 +446,7 @@ def run_check(pid, tier, seed, jobs):
     def case_len(v):
         return len(json.dumps((v.get("details") or {}).get("case")))
 
-    def report(fp, v):
+    def report_inner(fp, v):
         """Try to turn one recorded violation into a reproducing replay file.
         -> 'reported' | 'known' | 'duplicate' | 'skipped' | error text"""
         left = shrink_deadline - time.time()
@@ -449,7 +466,7 @@ def run_check(pid, tier, seed, jobs):
                 if ffp in seen_final:
                     return "duplicate"
                 path = write_replay(pid, v["seed"], v["choices"], ffp, r["message"], r["digest"],
-                                    r.get("trace_tail"), r.get("details"), case=case)
+                                    r.get("trace_tail"), r.get("details"), case=case, env=v.get("env"))
                 ok, out = replay_in_fresh_interpreter(path)
                 if not ok:
                     return "replay %s did not reproduce in a fresh interpreter:\n%s" % (path, out[-2000:])
@@ -471,7 +488,7 @@ def run_check(pid, tier, seed, jobs):
             return "duplicate"
         if same_violation(r, fp):
             path = write_replay(pid, v["seed"], r["choices"], fp, r["message"], r["digest"],
-                                r.get("trace_tail"), r.get("details"))
+                                r.get("trace_tail"), r.get("details"), env=v.get("env"))
             ok, out = replay_in_fresh_interpreter(path)
             if ok:
                 seen_final.add(fp)
@@ -486,7 +503,7 @@ def run_check(pid, tier, seed, jobs):
         # The run alone does not show it: replay it after the runs its worker process had executed before it
         # (process-wide state in the code under test), then drop as much of that prelude as possible.
         path = write_replay(pid, v["seed"], v["choices"], fp, v["message"], v["digest"], None, v.get("details"),
-                            prelude=prelude)
+                            prelude=prelude, env=v.get("env"))
         ok, out = replay_in_fresh_interpreter(path)
         if not ok:
             return err + "\n(also not with the %d preceding runs of its worker)" % len(prelude)
@@ -494,16 +511,29 @@ def run_check(pid, tier, seed, jobs):
         while len(keep) > 1 and time.time() < shrink_deadline + 120:
             half = keep[len(keep) // 2:]
             write_replay(pid, v["seed"], v["choices"], fp, v["message"], v["digest"], None, v.get("details"),
-                         prelude=half)
+                         prelude=half, env=v.get("env"))
             ok, out = replay_in_fresh_interpreter(path)
             if not ok:
                 break
             keep = half
         write_replay(pid, v["seed"], v["choices"], fp, v["message"], v["digest"], None, v.get("details"),
-                     prelude=keep)
+                     prelude=keep, env=v.get("env"))
         seen_final.add(fp)
         new_violations.append((fp, v, path, 0))
         return "reported"
+
+    def report(fp, v):
+        env = v.get("env") or {}
+        saved = {k: os.environ.get(k) for k in env}
+        os.environ.update(env)
+        try:
+            return report_inner(fp, v)
+        finally:
+            for k, old in saved.items():
+                if old is None:
+                    os.environ.pop(k, None)
+                else:
+                    os.environ[k] = old
 
     order = sorted(groups.items(), key=lambda kv: (case_len(kv[1][0]), kv[0]) if minimize else kv[0])
     unreproduced = []
